@@ -18,7 +18,9 @@
                                                               present in the source are arities 0..7 and
                                                               all of the one shape; block size, reserve
                                                               mask as read off the source)
-   the same for Array (incl. resize, reserve, remove(idx)) -> array_step_refines, array_history_refines
+   the same for Array (incl. resize, reserve, remove(idx), operator== / != as the size test followed by the
+   element-wise loop, append(const T*, usize) with a pointer to a range of the array's own elements)
+                                                           -> array_step_refines, array_history_refines
    "every returned iterator or reference designates the documented element (the inserted one, or
     the successor of the removed one)"                     -> the `res` component of the three *_refines
                                                               theorems (rank of the returned node), with
@@ -29,6 +31,23 @@
    "capacity boundaries of Array growth"                   -> array_reserve_rule, array_reserve_fits,
                                                               array_reserve_grows, array_history_capacity
    Array shifting removal                                  -> array_remove_shifts
+   Array at the level of storage cells (SeqArrayMemModel: allocations with a live flag and cells that are
+   constructed or raw; reserve = allocate with the `| 0x03` rule, copy-construct each element, destroy the
+   old one, free the old allocation; append(value / Array / buffer, incl. own element, the array itself, a
+   range of its own storage), resize (all three branches, both forms), remove (shifting assignments + one
+   destruction), clear, swap, operator=, copy construction, destructor, find - as the checked per-cell
+   accesses the code performs): no history reaches an access error (read / assignment / destruction of raw
+   storage, placement new on a constructed cell, access outside the allocation, to a freed allocation or
+   through null, double free, freeing constructed elements), every live allocation belongs to exactly one
+   variable, and after every operation the machine holds what the value-level Array model holds
+                                                           -> arraymem_step_safe_refines,
+                                                              arraymem_history_safe_refines,
+                                                              arraymem_history_no_access_error,
+                                                              arraymem_history_refines_spec,
+                                                              arraymem_invariant_initial, arraymem_invariant_meaning;
+                                                              the loops: arraymem_reserve, arraymem_reserve_move_loop,
+                                                              arraymem_copy_loop, arraymem_remove_shift_loop,
+                                                              arraymem_append_self, arraymem_append_own_storage
    "List::sort leaves an ascending permutation of the previous contents ... all input orders"
                                                            -> sort_as_coded_sorted_permutation,
                                                               sort_as_coded_total (pointer-level
@@ -57,6 +76,7 @@
 From Coq Require Import ZArith List Bool Sorting.Sorted Sorting.Permutation.
 From Common Require Import ListAux.
 From Seq Require Import Gen_Seq SeqSpec SeqModel SeqSortProofs SeqSortPtrProofs SeqPoolProofs SeqLinkModel SeqLinkProofs SeqListProofs SeqArrayProofs SeqTieProofs.
+From Seq Require Import SeqArrayMemModel SeqArrayMemProofs SeqArrayMemOps SeqArrayMemWorld.
 Import ListNotations.
 Local Open Scope Z_scope.
 
@@ -201,6 +221,179 @@ Print Assumptions array_remove_shifts.
 
 Example array_remove_shifts_nonvacuous : shift_out 2 [10; 11; 12; 13; 14] = [10; 11; 13; 14] /\ shift_out 4 [10; 11; 12; 13; 14] = [10; 11; 12; 13].
 Proof. vm_compute. split; reflexivity. Qed.
+
+(* ---- Array<T> at the level of storage cells --------------------------------------------------------- *)
+(* one operation: from a consistent world it ends WITHOUT an access error in a consistent world, and the
+   value-level model computes, from the abstraction of the world before, the abstraction of the world after
+   (contents, size, capacity, allocation flag of every variable) and the same result *)
+Theorem arraymem_step_safe_refines : forall (w : sworld) (op : aop), winv w ->
+    exists w' r, sstep w op = SOk w' r /\ winv w' /\ astep (sabs w) op = (sabs w', r).
+Proof. exact sstep_ok. Qed.
+Print Assumptions arraymem_step_safe_refines.
+
+(* every history from default-constructed variables *)
+Theorem arraymem_history_safe_refines : forall (nv : nat) (ops : list aop),
+    exists tr, srun (swinit nv) ops = inl tr /\ sabs_trace tr = arun (ainit nv) ops
+               /\ Forall (fun wr => winv (fst wr)) tr.
+Proof. exact arraymem_history. Qed.
+Print Assumptions arraymem_history_safe_refines.
+
+Theorem arraymem_history_no_access_error : forall (nv : nat) (ops : list aop) (e : aerr), srun (swinit nv) ops <> inr e.
+Proof. exact arraymem_history_safe. Qed.
+Print Assumptions arraymem_history_no_access_error.
+
+Theorem arraymem_history_refines_spec : forall (nv : nat) (ops : list aop),
+    exists tr, srun (swinit nv) ops = inl tr
+               /\ aspec_run (sinit nv) ops = map (fun wr => (aabs (sabs (fst wr)), aobs_res (snd wr))) tr.
+Proof. exact SeqArrayMemWorld.arraymem_history_refines_spec. Qed.
+Print Assumptions arraymem_history_refines_spec.
+
+Theorem arraymem_invariant_initial : forall nv : nat, winv (swinit nv).
+Proof. exact winv_init. Qed.
+Print Assumptions arraymem_invariant_initial.
+
+(* the invariant, spelled out: the allocation of a variable is live and has _capacity cells, the first
+   size() of them constructed, the others raw; a variable without allocation is empty; no allocation is
+   shared; every live allocation belongs to a variable (nothing is leaked, freed storage holds no element) *)
+Theorem arraymem_invariant_meaning : forall w : sworld, winv w ->
+    (forall i b, (i < length (sarrs w))%nat -> sbeg (swget i w) = Some b ->
+       exists cs, nth_error (sheap w) b = Some (mk_block true cs)
+                  /\ Z.of_nat (length cs) = scap (swget i w)
+                  /\ (send (swget i w) <= length cs)%nat
+                  /\ (forall k, (k < send (swget i w))%nat -> exists v, nth_error cs k = Some (Some v))
+                  /\ (forall k, (send (swget i w) <= k < length cs)%nat -> nth_error cs k = Some None))
+    /\ (forall i, (i < length (sarrs w))%nat -> sbeg (swget i w) = None -> send (swget i w) = O)
+    /\ (forall i j b, (i < length (sarrs w))%nat -> (j < length (sarrs w))%nat ->
+          sbeg (swget i w) = Some b -> sbeg (swget j w) = Some b -> i = j)
+    /\ (forall b blk, nth_error (sheap w) b = Some blk -> blive blk = true ->
+          exists i, (i < length (sarrs w))%nat /\ sbeg (swget i w) = Some b).
+Proof. exact winv_meaning. Qed.
+Print Assumptions arraymem_invariant_meaning.
+
+Example arraymem_history_nonvacuous :
+  let ops := [AAppend 0 1; AAppendBuf 0 [2; 3]; AAppend 0 4; ARemoveIt 0 1; AResize 0 6 7; AResizeD 0 2; AReserve 0 9;
+              ACopy 1 0; ANewCap 0 5; AAppendArr 0 1; AAppendArr 0 0; AAppendArr 0 0; AAppendBufOwn 0 1 3; AAppendOwn 0 7;
+              AResizeOwn 0 14 2; ASwap 0 1; AAssign 0 1; ARemoveIdx 1 0; ARemoveBack 1; AClear 0; ANew 1] in
+  match srun (swinit 2) ops with
+  | inl tr => (map (fun wr => map items (sabs (fst wr))) tr, map (fun wr => (live_blocks (sheap (fst wr)), length (sheap (fst wr)))) tr)
+  | inr _ => ([], [])
+  end
+  = ([[[1]; []]; [[1; 2; 3]; []]; [[1; 2; 3; 4]; []]; [[1; 3; 4]; []]; [[1; 3; 4; 7; 7; 7]; []]; [[1; 3]; []]; [[1; 3]; []];
+      [[1; 3]; [1; 3]]; [[]; [1; 3]]; [[1; 3]; [1; 3]]; [[1; 3; 1; 3]; [1; 3]]; [[1; 3; 1; 3; 1; 3; 1; 3]; [1; 3]];
+      [[1; 3; 1; 3; 1; 3; 1; 3; 3; 1; 3]; [1; 3]]; [[1; 3; 1; 3; 1; 3; 1; 3; 3; 1; 3; 3]; [1; 3]];
+      [[1; 3; 1; 3; 1; 3; 1; 3; 3; 1; 3; 3; 1; 1]; [1; 3]]; [[1; 3]; [1; 3; 1; 3; 1; 3; 1; 3; 3; 1; 3; 3; 1; 1]];
+      [[1; 3; 1; 3; 1; 3; 1; 3; 3; 1; 3; 3; 1; 1]; [1; 3; 1; 3; 1; 3; 1; 3; 3; 1; 3; 3; 1; 1]];
+      [[1; 3; 1; 3; 1; 3; 1; 3; 3; 1; 3; 3; 1; 1]; [3; 1; 3; 1; 3; 1; 3; 3; 1; 3; 3; 1; 1]];
+      [[1; 3; 1; 3; 1; 3; 1; 3; 3; 1; 3; 3; 1; 1]; [3; 1; 3; 1; 3; 1; 3; 3; 1; 3; 3; 1]];
+      [[]; [3; 1; 3; 1; 3; 1; 3; 3; 1; 3; 3; 1]]; [[]; []]],
+     [(1, 1); (1, 1); (1, 2); (1, 2); (1, 2); (1, 2); (1, 3); (2, 4); (1, 4); (2, 5); (2, 5); (2, 6); (2, 6); (2, 7); (2, 7);
+      (2, 7); (2, 8); (2, 8); (2, 8); (2, 8); (1, 8)]%nat).
+Proof. vm_compute. reflexivity. Qed.
+
+(* the checks of the machine are live: each kind of bad access is an error *)
+Example arraymem_errors_nonvacuous :
+  rd (Some 0%nat) 0 [mk_block false [Some 1]] = Err EFreed
+  /\ rd (Some 0%nat) 1 [mk_block true [Some 1]] = Err EOob
+  /\ rd (Some 0%nat) 0 [mk_block true [None]] = Err ERaw
+  /\ rd None 0 [] = Err ENull
+  /\ construct (Some 0%nat) 0 5 [mk_block true [Some 1]] = Err ETwice
+  /\ construct (Some 0%nat) 1 5 [mk_block true [Some 1]] = Err EOob
+  /\ destroy (Some 0%nat) 0 [mk_block true [None]] = Err ERaw
+  /\ assign (Some 0%nat) 0 5 [mk_block true [None]] = Err ERaw
+  /\ mem_free (Some 0%nat) [mk_block true [Some 1]] = Err ELeak
+  /\ mem_free (Some 0%nat) [mk_block false [None]] = Err EDblFree
+  /\ rd_src (SVals [1; 2]) 2 [] = Err EOob
+  (* appending the array to itself with values._begin.item taken BEFORE reserve() would read freed storage: *)
+  /\ (let a := mk_sarr (Some 0%nat) 3 3 in
+      bind (s_reserve 6 a) (fun a1 => copy_loop 3 (SPtr (sbeg a) 0) 0 (sbeg a1) (send a1)) [mk_block true [Some 1; Some 2; Some 3]])
+     = Err EFreed
+  (* reserve() that moved one element too few would free constructed storage: *)
+  /\ bind (move_loop 2 (Some 0%nat) (Some 1%nat) 0) (fun _ => mem_free (Some 0%nat))
+          [mk_block true [Some 1; Some 2; Some 3]; mk_block true [None; None; None; None; None; None; None]] = Err ELeak
+  (* remove() that shifted from the far end would keep the wrong elements - and remove(end()) destroys raw storage: *)
+  /\ s_remove 3 (mk_sarr (Some 0%nat) 3 3) [mk_block true [Some 1; Some 2; Some 3]] = Err EOob.
+Proof. vm_compute. repeat split; reflexivity. Qed.
+
+(* operator== / operator!=: value-level model and storage machine (which reads the cells of both arrays) *)
+Example array_eq_nonvacuous :
+  let ops := [AAppendBuf 0 [1; 2]; AAppendBuf 1 [1; 2]; AEq 0 1; AAppend 1 3; AEq 0 1; ANe 0 1; AEq 2 2; ARemoveBack 1; AEq 1 0;
+              AAppendBuf 1 [7]; ARemoveIdx 1 1; AEq 0 1; ANe 1 1] in
+  let want := [MNone; MNone; MBool true; MRefIdx 2; MBool false; MBool true; MSkip; MIdx 2; MBool true; MNone; MNone; MBool false;
+               MBool false] in
+  map snd (arun (ainit 2) ops) = want
+  /\ match srun (swinit 2) ops with inl tr => map snd tr = want | inr _ => False end.
+Proof. vm_compute. split; reflexivity. Qed.
+
+(* reserve at the level of cells: no error; the same elements, now in the storage the object points to; capacity and
+   allocation flag as the value-level rule says; other allocations untouched, the old one freed empty *)
+Theorem arraymem_reserve : forall (n : Z) (a : sarr) (h : mheap) (L : list Z), has_arr h a L ->
+    exists h' a', s_reserve n a h = Ok a' h' /\ has_arr h' a' L /\ abs_arr a' L = a_reserve n (abs_arr a L)
+                  /\ step_frame h a h' a'.
+Proof. exact s_reserve_ok. Qed.
+Print Assumptions arraymem_reserve.
+
+(* its loop: every element is copy-constructed into the raw cell of the same index of the other allocation and then
+   destroyed where it was *)
+Theorem arraymem_reserve_move_loop : forall (S : list Z) (sb db : nat) (spre spost dpre dpost : list (option Z)) (h : mheap),
+    sb <> db -> length spre = length dpre ->
+    nth_error h sb = Some (mk_block true (spre ++ map Some S ++ spost)) ->
+    nth_error h db = Some (mk_block true (dpre ++ repeat None (length S) ++ dpost)) ->
+    move_loop (length S) (Some sb) (Some db) (length spre) h
+    = Ok tt (upd sb (mk_block true (spre ++ repeat None (length S) ++ spost))
+              (upd db (mk_block true (dpre ++ map Some S ++ dpost)) h)).
+Proof. exact move_loop_ok. Qed.
+Print Assumptions arraymem_reserve_move_loop.
+
+(* the placement-new loop of append / copy construction / operator=: the source may be the caller's buffer,
+   another allocation, or cells of the same allocation before the ones being constructed *)
+Theorem arraymem_copy_loop : forall (S : list Z) (s : src) (k b : nat) (pre post : list (option Z)) (h : mheap),
+    nth_error h b = Some (mk_block true (pre ++ repeat None (length S) ++ post)) ->
+    (forall j, (j < length S)%nat -> rd_src s (k + j) h = Ok (nth j S 0) h) ->
+    match s with SPtr (Some b') i => b' <> b \/ (i + (k + length S) <= length pre)%nat | _ => True end ->
+    copy_loop (length S) s k (Some b) (length pre) h
+    = Ok tt (upd b (mk_block true (pre ++ map Some S ++ post)) h).
+Proof. exact copy_loop_ok. Qed.
+Print Assumptions arraymem_copy_loop.
+
+(* the loop of remove: the elements behind the position move down by one assignment each; the last cell keeps its value
+   until it is destroyed *)
+Theorem arraymem_remove_shift_loop : forall (S : list Z) (x : Z) (b : nat) (pre post : list (option Z)) (h : mheap),
+    nth_error h b = Some (mk_block true (pre ++ Some x :: map Some S ++ post)) ->
+    shift_loop (length S) (Some b) (length pre) h
+    = Ok tt (upd b (mk_block true (pre ++ map Some S ++ Some (last S x) :: post)) h).
+Proof. exact shift_loop_ok. Qed.
+Print Assumptions arraymem_remove_shift_loop.
+
+(* append(const Array&) where the argument may be the array itself (self = true) *)
+Theorem arraymem_append_self : forall (self : bool) (o a : sarr) (h : mheap) (L Lo : list Z),
+    has_arr h a L -> has_arr h o Lo -> (self = true -> o = a) ->
+    (self = false -> forall b, sbeg o = Some b -> sbeg a <> Some b) ->
+    exists h' a', s_append_arr self o a h = Ok a' h' /\ has_arr h' a' (L ++ Lo)
+                  /\ abs_arr a' (L ++ Lo) = a_append_all Lo (abs_arr a L) /\ step_frame h a h' a'.
+Proof. exact s_append_arr_ok. Qed.
+Print Assumptions arraymem_append_self.
+
+(* append(const T*, usize) with a pointer to the range [off, off + n) of the array's own elements *)
+Theorem arraymem_append_own_storage : forall (off n : nat) (a : sarr) (h : mheap) (L : list Z),
+    has_arr h a L -> (off + n <= length L)%nat ->
+    let S := firstn n (skipn off L) in
+    exists h' a', s_append_buf (SPtr (sbeg a) off) n a h = Ok a' h' /\ has_arr h' a' (L ++ S)
+                  /\ abs_arr a' (L ++ S) = a_append_all S (abs_arr a L) /\ step_frame h a h' a'.
+Proof. exact s_append_buf_own_ok. Qed.
+Print Assumptions arraymem_append_own_storage.
+
+Example arraymem_loops_nonvacuous :
+  let h := [mk_block true [Some 1; Some 2; Some 3]] in
+  s_reserve 4 (mk_sarr (Some 0%nat) 3 3) h
+    = Ok (mk_sarr (Some 1%nat) 3 7) [mk_block false [None; None; None]; mk_block true [Some 1; Some 2; Some 3; None; None; None; None]]
+  /\ s_remove 0 (mk_sarr (Some 0%nat) 3 3) h = Ok (mk_sarr (Some 0%nat) 2 3) [mk_block true [Some 2; Some 3; None]]
+  /\ s_append_buf (SPtr (Some 0%nat) 1) 2 (mk_sarr (Some 0%nat) 3 3) h
+    = Ok (mk_sarr (Some 1%nat) 5 7) [mk_block false [None; None; None]; mk_block true [Some 1; Some 2; Some 3; Some 2; Some 3; None; None]]
+  /\ has_arr h (mk_sarr (Some 0%nat) 3 3) [1; 2; 3].
+Proof.
+  cbv zeta. split; [vm_compute; reflexivity|]. split; [vm_compute; reflexivity|]. split; [vm_compute; reflexivity|].
+  split; [|split; reflexivity]. unfold a_inv, asize, abs_arr. cbn. split; [discriminate|]. split; [discriminate|reflexivity].
+Qed.
 
 (* ---- what the ranks mean ------------------------------------------------------------------ *)
 Theorem rank_of_insert_is_inserted : forall (k : nat) (x : list Z) (v : Z) (l : sseq),
